@@ -5,13 +5,14 @@ pid, wt, out = sys.argv[1], sys.argv[2], sys.argv[3]
 n = sys.argv[4] if len(sys.argv) > 4 else "2"
 r2 = len(sys.argv) > 5 and sys.argv[5] == "r2"
 r3 = len(sys.argv) > 5 and sys.argv[5] == "r3"
-r6 = len(sys.argv) > 5 and sys.argv[5] == "r6"
+r8 = len(sys.argv) > 5 and sys.argv[5] == "r8"
+r6 = (len(sys.argv) > 5 and sys.argv[5] == "r6") or r8
 r5 = (len(sys.argv) > 5 and sys.argv[5] == "r5") or r6
 KINDS = """ Make the changes of DIFFERENT kinds: (1) a one-token or one-line slip in a place the tests do not look at - the wrong variable of the same type, a flipped or off-by-one comparison, an inverted condition, two swapped arguments, an error check dropped or its polarity reversed, a wrong map/table used; (2) an ordering change - a statement moved across a lock boundary, before/after a store or downstream call, into/out of a loop, before/after a validity check; (3) a plausible 'improvement' - a cache, an early return, a fast path, batching, reuse of an object - that is wrong in a corner case. Spread them over different functions and mechanisms of the property.""" if r2 else (""" Make the changes of DIFFERENT kinds, chosen from: (a) error handling - an error that is logged but no longer returned, returned but wrapped into nil by a later assignment, handled on the wrong branch, or a retry that gives up silently; (b) concurrency - a lock taken later or released earlier, a read of shared state moved outside its lock, a channel send/receive or goroutine start moved across a state change, a check-then-act split; (c) state and cleanup - a table entry not removed / removed too early, a flag set on the wrong object or never reset, a counter updated on one path only, a resource released twice or not at all; (d) boundary and identity - an off-by-one or inclusive/exclusive boundary, the wrong one of two similar identifiers (source vs target, id vs name, task vs collection, begin vs end), a key built from the wrong components; (e) data flow - a value computed before instead of after a rewrite, a stale copy used after an update, a shared object mutated where a copy was needed, a default that masks a missing value. Prefer the less central functions of the listed mechanisms and the paths that only run on failure, restart, pause/resume or with several tasks/collections.""" if r3 else "")
 if r5:
     KINDS = """ Make the changes of DIFFERENT kinds, chosen from: (a) two cooperating sites - a change in one function that is only wrong because of what another function (possibly in another file or package) assumes: a producer and a consumer of a table, a writer and a reader of a persisted record, a setter whose callers pass a different kind of value, a helper whose contract is changed for one caller and silently for the others; (b) restart / pause-resume / multi-task paths - state that is rebuilt from the store, reference counts, tables shared by several tasks of one target, clean-up on the failure path of start-up; (c) a changed helper or utility (key/name composition, parsing, a comparison or merge helper, a constructor default, a copy that became shallow) whose effect only shows for unusual names, ids, several shards or channels, or a second incarnation of an object; (d) a new feature-like addition (a metric-driven fast path, a config option with a wrong default, a retry with a wrong retriable set, a timeout that fires in a legal slow case) that breaks the property only in a corner; (e) a change of WHEN something happens relative to a lock, a store write, a downstream call, a channel send or a goroutine start. Avoid the most central 20 lines of each mechanism (they have been studied a lot); prefer secondary functions, constructors, the store/back-end implementations, helper packages and failure paths."""
 p = next(json.loads(l) for l in open('/verif/properties.jsonl') if json.loads(l)['id'] == pid)
-LET = "o, p, q, r" if r6 else "k, l, m, n" if r5 else ("g, h, i, j" if r3 else "d, e, f")
+LET = "s, t" if r8 else "o, p, q, r" if r6 else "k, l, m, n" if r5 else ("g, h, i, j" if r3 else "d, e, f")
 print(f"""You are helping to evaluate a verification effort for the Go project zilliztech/milvus-cdc (a change-data-capture service for Milvus). You have your own scratch git worktree of the project at {wt} (three Go modules: core/, server/, rocksdb/). Work ONLY inside {wt} and {out}; never touch /repo or /verif and do not read anything under /verif.
 
 Here is a semantic property the project is supposed to satisfy:
